@@ -242,7 +242,7 @@ def body_race(H, case):
             return res, made
 
         if case.kernel == "coulomb":
-            f = scr.get_A_induced_numba.py_func
+            f = getattr(scr.get_A_induced_numba, "py_func", scr.get_A_induced_numba)
             J, ar = mk2("J", n, 2, -2.0, 2.0), H.reals("a", n, lo=0.1, hi=2.0)
             sites = H.array2([[H.real(f"sx{j}", lo=j - 0.2, hi=j + 0.2), H.real(f"sy{j}", lo=-0.2, hi=0.2)] for j in range(n)])
             cent = H.array2([[H.real(f"cx{i}", lo=i + 0.3, hi=i + 0.7), H.real(f"cy{i}", lo=0.8, hi=1.2)] for i in range(n)])
@@ -251,7 +251,7 @@ def body_race(H, case):
             _, made = call(f, Track(J, "J", log), Track(ar, "areas", log), Track(sites, "sites", log), Track(cent, "centers", log), tout)
             outs["out"] = tout.data
         elif case.kernel in ("bs_z", "bs_v"):
-            f = (em._biot_savart_2d_z if case.kernel == "bs_z" else em._biot_savart_2d_vector).py_func
+            f = (em._biot_savart_2d_z if case.kernel == "bs_z" else em._biot_savart_2d_vector); f = getattr(f, "py_func", f)
             ev = H.array2([[H.real(f"ex{i}", lo=-1.0, hi=1.0), H.real(f"ey{i}", lo=-1.0, hi=1.0), H.real(f"ez{i}", lo=0.5, hi=1.5)] for i in range(n)])
             pos = H.array2([[H.real(f"px{k}", lo=-1.0, hi=1.0), H.real(f"py{k}", lo=-1.0, hi=1.0), 0.0] for k in range(n)])
             J, ar = mk2("J", n, 2, -2.0, 2.0), H.reals("a", n, lo=0.1, hi=2.0)
@@ -259,7 +259,7 @@ def body_race(H, case):
             outs["out"] = _u(res) if isinstance(res, Track) else res
         else:
             for nm in ("euclidean_distance_2d", "sqeuclidean_distance_3d"):
-                f = getattr(D, nm).py_func
+                f = getattr(D, nm); f = getattr(f, "py_func", f)
                 dim = 2 if nm.endswith("2d") else 3
                 XA, XB = mk2(f"A{dim}", n, dim, -2.0, 2.0), mk2(f"B{dim}", n, dim, -2.0, 2.0)
                 res, made = call(f, Track(XA, "XA", log), Track(XB, "XB", log))
